@@ -204,3 +204,24 @@ func catchPanic(f func()) (panicked bool) {
 func contains(s, sub string) bool { return strings.Contains(s, sub) }
 func f64bits(x float64) uint64    { return math.Float64bits(x) }
 func logf(x float64) float64      { return math.Log(x) }
+
+// shapedDocIDs builds an id-restriction list with structure around id b: repeats, a repeat "filling"
+// a hole of an otherwise contiguous run, descending order, a contiguous block.
+func shapedDocIDs(r *rand.Rand, b uint32) []uint32 {
+	switch r.Intn(5) {
+	case 0:
+		return []uint32{b, b, b + 2}
+	case 1:
+		return []uint32{b + 2, b, b + 2, b}
+	case 2:
+		return []uint32{b + 3, b + 2, b + 1, b}
+	case 3:
+		return []uint32{b, b + 1, b + 1, b + 3, b + 4}
+	default:
+		out := []uint32{}
+		for j := uint32(0); j < 6; j++ {
+			out = append(out, b+j)
+		}
+		return out
+	}
+}
